@@ -1,8 +1,18 @@
 """C03: every mutating contract method is inert without its required witnesses."""
 PROPS = {
-    "C03": dict(lean=["NeoFS.Props.C03"], driver=None, harness=None, monitors=["C03"], facts=["consts", "access"], diagnose="c03_diag",
-                shards=dict(quick=1, thorough=4),
-                rule="static: every exported function of the 11 contracts translated to the inertness IR on this run; all valuations of each method's witness atoms decided by Lean's kernel"),
+    "C03": dict(lean=["NeoFS.Props.C03"], driver=None, harness="access", monitors=["C03"], facts=["consts", "access"], diagnose="c03_diag",
+                shards=dict(quick=4, thorough=12),
+                rule="static: every exported function of the 11 contracts translated to the inertness IR on this run; all valuations of each method's witness atoms decided by Lean's kernel. "
+                     "dynamic (harness/access): EXHAUSTIVE product of every method of the 11 manifests compiled from the working tree (+ a second NeoFS deployment in vote mode) "
+                     "x signer sets {nobody, stranger, single Alphabet member, single Inner Ring key, committee-majority account n/2+1, Alphabet account 2n/3+1, the same two over the NeoFSAlphabet role keys, "
+                     "the accounts ONE SIGNATURE SHORT of each of them ((n/2)-of-n, (2n/3)-of-n), named keys alone / one by one / with the wrong multi-signature, every MAXIMAL set not meeting the "
+                     "documented requirement (also through a contract that catches the callee's exception), every MINIMAL set meeting it, vote-mode quorum} x committees {1,3} + the even size 6 on "
+                     "update/verify/threshold-sensitive methods (quick) / {1,3,6,7} (thorough), executed as transactions with valid arguments from per-method builders; verify additionally by test "
+                     "invocation and as fee-paying transaction sender (Verification trigger); plus argument fuzz under unmet sets: own-account / other-contract / zero-account substitution, one or two "
+                     "parameters at their zero value, mutated and random arguments (2 per method quick, 40 thorough). Observed per transaction: VM state, raw storage digest + update counter + NEF checksum of ALL "
+                     "deployed contracts, notifications, GAS/NEO balances of all involved accounts, exact fee of the payer, NEO votes. stats: cell.<contract>.<method> = executed cells, set.<label> = cells per signer set, "
+                     "methods.mutating/safe = manifest methods covered per committee size, unmapped.* = methods the requirement table does not know (default requirement). "
+                     "distinct_nontrivial = distinct (cell, observation) pairs of HALTed transactions"),
 }
 CLAIMS = {
     "C03": dict(text="For every exported method of the eleven contracts (IR regenerated from the Go sources on every run) Lean's kernel decides, through a proved-sound "
